@@ -16,7 +16,7 @@ EXTENDS Locals, TLC
 
 CONSTANTS Vals, MaxStack, MaxOps, OpKinds, Made0,
           Bug      \* "none" | "setattr" | "delattr" | "release" | "push" | "pop" |
-                   \* "release_stack" | "proxy_early" | "spawn_fresh" | "release_all"
+                   \* "release_stack" | "proxy_early" | "spawn_fresh" | "release_all" | "falsy_unbound"
 
 VARIABLES st,     \* contract state (Locals.tla)
           im,     \* implementation state
@@ -34,7 +34,7 @@ EmptyD == [nm \in Names |-> NoBox]
 \*      cont : Boxes -> Vals, pmade : set of proxy kinds, pearly : PKinds -> box captured at creation]
 InitImpl == [hd |-> [r \in Refs |-> EmptyD], hl |-> [r \in Refs |-> <<>>],
              cvd |-> [c \in Ctxs |-> NoRef], cvl |-> [c \in Ctxs |-> NoRef],
-             cont |-> [b \in Boxes |-> 0], pmade |-> Made0, pearly |-> [k \in PKinds |-> NoBox]]
+             cont |-> [b \in Boxes |-> Init0(b)], pmade |-> Made0, pearly |-> [k \in PKinds |-> NoBox]]
 
 DictOf(I, c) == IF I.cvd[c] = NoRef THEN EmptyD ELSE I.hd[I.cvd[c]]
 ListOf(I, c) == IF I.cvl[c] = NoRef THEN <<>> ELSE I.hl[I.cvl[c]]
@@ -76,8 +76,12 @@ SetDict(I, alive, c, d, op) == IF Bug = op THEN SetDictInPlace(I, alive, c, d) E
 SetList(I, alive, c, l, op) == IF Bug = op THEN SetListInPlace(I, alive, c, l) ELSE SetListFresh(I, alive, c, l)
 
 \* LocalProxy._get_current_object() evaluated in context c
+Lookup(I, c, k) == IF k = TOP THEN TopOf(ListOf(I, c)) ELSE DictOf(I, c)[k]
 Resolve(I, c, k) == IF Bug = "proxy_early" THEN I.pearly[k]
-                    ELSE IF k = TOP THEN TopOf(ListOf(I, c)) ELSE DictOf(I, c)[k]
+                    \* "if not obj:" instead of "if obj is None:" -- a falsy top counts as unbound
+                    ELSE IF Bug = "falsy_unbound" /\ k = TOP /\ Lookup(I, c, k) # NoBox
+                            /\ ~TruthyC(I.cont, Lookup(I, c, k)) THEN NoBox
+                    ELSE Lookup(I, c, k)
 
 IRet(I, o) ==
   LET c == o.ctx d == DictOf(I, c) l == ListOf(I, c) IN
@@ -86,7 +90,8 @@ IRet(I, o) ==
     [] o.op = "iter" -> IntR(Cardinality({nm \in Names : d[nm] # NoBox}))
     [] o.op \in {"pop", "top"} -> IF Len(l) = 0 THEN NoneR ELSE BoxR(l[Len(l)])
     [] o.op = "proxy_read"   -> IF Resolve(I, c, o.k) # NoBox THEN BoxR(Resolve(I, c, o.k)) ELSE ExcR("RuntimeError")
-    [] o.op = "proxy_mutate" -> IF Resolve(I, c, o.k) # NoBox THEN OkR ELSE ExcR("RuntimeError")
+    [] o.op \in ObjOps -> IF Resolve(I, c, o.k) # NoBox THEN ObjRet(I.cont, Resolve(I, c, o.k), o)
+                           ELSE ExcR("RuntimeError")
     [] OTHER -> OkR
 
 INext(I, alive, o) ==
@@ -103,8 +108,8 @@ INext(I, alive, o) ==
          LET I1 == SetDict(I, alive, c, EmptyD, "release") IN SetList(I1, alive, c, <<>>, "release_stack")
     [] o.op = "mkproxy" -> [I EXCEPT !.pmade = @ \cup {o.k},
                                      !.pearly[o.k] = IF o.k = TOP THEN TopOf(l) ELSE d[o.k]]
-    [] o.op = "proxy_mutate" -> IF Resolve(I, c, o.k) # NoBox
-                                THEN [I EXCEPT !.cont[Resolve(I, c, o.k)] = o.v] ELSE I
+    [] o.op \in ObjOps -> IF Resolve(I, c, o.k) # NoBox
+                           THEN [I EXCEPT !.cont = ObjNext(I.cont, Resolve(I, c, o.k), o)] ELSE I
     [] o.op = "spawn" -> IF Bug = "spawn_fresh" THEN I     \* child starts empty instead of with the snapshot
                          ELSE [I EXCEPT !.cvd[o.child] = I.cvd[c], !.cvl[o.child] = I.cvl[c]]
     [] OTHER -> I
@@ -118,6 +123,7 @@ AllOps ==
   \cup {O(c, "push", "", b, 0, "", 0) : c \in Ctxs, b \in Boxes}
   \cup {O(c, op, "", 0, 0, k, 0) : c \in Ctxs, op \in {"mkproxy", "proxy_read"}, k \in PKinds}
   \cup {O(c, "proxy_mutate", "", 0, v, k, 0) : c \in Ctxs, v \in Vals, k \in PKinds}
+  \cup {O(c, op, "", 0, 0, k, 0) : c \in Ctxs, op \in {"proxy_pop", "proxy_clear"}, k \in PKinds}
   \cup {O(c, "spawn", "", 0, 0, "", ch) : c \in Ctxs, ch \in Ctxs}
 
 Allowed(S, o) == /\ o.op \in OpKinds
